@@ -18,10 +18,11 @@ class HeaderMember:
 
     def headers(self) -> Header:
         rv: Header = {}
-        if self.protected:
-            rv.update(self.protected)
         if self.header:
             rv.update(self.header)
+        if self.protected:
+            # integrity-protected members win over unprotected duplicates
+            rv.update(self.protected)
         return rv
 
     def set_kid(self, kid: str) -> None:
